@@ -247,7 +247,7 @@ def compare(cases, impl, model):
     return bad
 
 
-SHRINK_KEYS = ["recs", "seq", "rows", "ops", "matches", "ref", "samples", "reads", "a", "b"]
+SHRINK_KEYS = ["recs", "seq", "rows", "matches", "ref", "samples", "reads", "a", "b"]
 
 
 def _mismatch_kind(ctx, line):
@@ -543,7 +543,7 @@ def _run_property(ctx, spec):
                     print(f"KNOWN-FINDING: property={prop} {k}")
             if res.get("violation"):
                 viol_payload = {"cli": res["violation"], "kind": "CLI result differs from the specification"}
-                no_input = False
+                no_input = bool(res.get("no_input"))
                 break
     if spec.get("exhaustive_note") and tier == "thorough":
         coverage["exhaustive_scopes"] = spec["exhaustive_note"]
